@@ -113,6 +113,11 @@ def replay_and_judge(ctx, name, vecs, subjects_file, shards):
         if len(cases) != len(verdicts) or len(cases) != len(parts[ix]):
             raise Infra("trace %s-%d: %d vectors, %d cases, %d verdicts" % (name, ix, len(parts[ix]), len(cases), len(verdicts)))
         os.remove(cf)
+        for c in cases:
+            # the recorded trees of the whole input and output have been judged; nothing reads them afterwards
+            # (thousands of them held until the end of a thorough run were 10 GB)
+            c.pop("in", None)
+            c.pop("out", None)
         return list(zip(cases, verdicts))
 
     ctx.build_harness()
